@@ -434,6 +434,13 @@ theorem snap_step (s s' : St) (e : Ev) (snaps : List (Nat × List Nat)) (h : Sna
       · simp at hs; subst hs; exact h.frame rfl rfl rfl
       all_goals cases hs
     · cases hs
+  | envErr a e0 =>
+    simp only [step, stepI] at hs
+    split at hs
+    · split at hs
+      · simp at hs; subst hs; exact h.frame rfl rfl rfl
+      all_goals cases hs
+    · cases hs
   | giveUp n =>
     simp only [step, stepI] at hs
     split at hs
@@ -657,6 +664,10 @@ theorem linkB_step (s s' : St) (e : Ev) (ms : C04St) (hl : LinkB s ms) (hg : Goo
     exact ⟨ms', by rw [← h1]; rfl, h2, by rw [monC04a_snaps _ _ _ h1]; exact hB⟩
   | envCancelW a =>
     have hB := snap_step s s' (.envCancelW a) ms.snaps hl.b hg hl3 hs (by intro a op h; cases h)
+    obtain ⟨ms', h1, h2⟩ := hA
+    exact ⟨ms', by rw [← h1]; rfl, h2, by rw [monC04a_snaps _ _ _ h1]; exact hB⟩
+  | envErr a e0 =>
+    have hB := snap_step s s' (.envErr a e0) ms.snaps hl.b hg hl3 hs (by intro a op h; cases h)
     obtain ⟨ms', h1, h2⟩ := hA
     exact ⟨ms', by rw [← h1]; rfl, h2, by rw [monC04a_snaps _ _ _ h1]; exact hB⟩
   | probeCtx k b =>
